@@ -66,4 +66,11 @@ CHECKS["C08"] = {
   "design_ref": "DESIGN.md §5 C08",
   "note": "Exhaustive over tags and arities 1..10 with one filler assignment per tuple; table transcribed from the protocol document (trusted). Open finding C08-spawn-arity matched by operation name + exact shape of the deviation.",
 }
+CHECKS["C14"] = {
+  "level": "model_checking",
+  "technique": "TLA+ spec of the distribution header layout and of the sender/receiver atom-cache state machine (DistHeader.tla), model-checked by TLC; library header bytes parsed by the TLA+ reader; every model transition replayed on decode_with_atom_cache",
+  "text": "TLC checks on all histories of <= 3/4 messages (4 atoms, 3 slots in 3 segments, both header orders, new/re-used/overwritten entries) that the spec's conforming writer and reader agree (Resolved, CachesAgree) and that a reader keyed by index alone does not (non-vacuity); each transition's bytes are then fed to the real decoder with a persistent cache from the transition's source state and the resolved terms compared with the sender's. Encoder side: 72 control/payload pairs (0..300 atoms, odd/even counts, long atoms) encoded by the library and read back by the TLA+ reader.",
+  "design_ref": "DESIGN.md §5 C14",
+  "note": "Bounded histories and universe; the header layout is transcribed from the protocol document (trusted) and cross-checked writer-vs-reader inside the spec.",
+}
 NOT_APPLICABLE = {}
